@@ -161,6 +161,10 @@ fn parse_args() -> anyhow::Result<Result<BuildArgs, i32>> {
 
     use lexopt::prelude::*;
     let mut parser = lexopt::Parser::from_env();
+    #[cfg(feature = "verif")]
+    if let Some(argv) = crate::verif::args_override() {
+        parser = lexopt::Parser::from_iter(argv);
+    }
     while let Some(arg) = parser.next()? {
         match arg {
             Short('h') | Long("help") => {
@@ -251,6 +255,11 @@ fn run_impl() -> anyhow::Result<i32> {
     }
 
     Ok(0)
+}
+
+#[cfg(feature = "verif")]
+pub fn verif_run_impl() -> anyhow::Result<i32> {
+    run_impl()
 }
 
 pub fn run() -> anyhow::Result<i32> {
